@@ -37,6 +37,7 @@ type Config struct {
 	WallDeadline time.Time
 	FPExactAdd   bool
 	SymSlices    bool
+	DivZeroPrune bool
 	Witnesses    int
 }
 
@@ -292,6 +293,7 @@ type Worker struct {
 	journal  []journalEnt
 	mergeDepthAbort bool
 	inInit          bool
+	mapIters        map[*Value]*mapIterState
 	gmpSeq          int
 	observes        []obsRec
 	constCache      map[*ssa.Const]Value
@@ -369,6 +371,7 @@ func (w *Worker) runPath(j Job) {
 	w.globals = map[*ssa.Global]*Value{}
 	w.nextBack = 0
 	w.depth = 0
+	w.mapIters = nil
 	w.gmpSeq = 0
 	w.observes = w.observes[:0]
 	w.randSeq = 0
